@@ -457,7 +457,9 @@ def stack(arrays, axis=0, out=None, **kwargs):
     ret_units = _validate_units_consistency(arrays)
     if out is None:
         return (
-            np.stack._implementation([np.asarray(_) for _ in arrays], axis=axis)
+            np.stack._implementation(
+                [np.asarray(_) for _ in arrays], axis=axis, **kwargs
+            )
             * ret_units
         )
     res = np.stack._implementation(
@@ -1105,7 +1107,7 @@ def einsum(*operands, out=None, **kwargs):
     else:
         out_view = out
 
-    res = np.einsum._implementation(subscripts, *operands, out=out_view)
+    res = np.einsum._implementation(subscripts, *operands, out=out_view, **kwargs)
 
     if getattr(out, "units", None) is not None:
         out.units = ret_units
